@@ -16,6 +16,36 @@ BYTE_FNS = ["byte_parser::ByteParser::<'a, T>::new", "byte_parser::ByteParser::<
             "byte_parser::ByteParser::<'a, T>::select_other_charset"]
 
 
+def yield_wrappers(prog):
+    """crate-local helpers (closures of the coroutine, private functions) that call `yield_` themselves: a call of one of
+    them from the coroutine body is a suspension point of the coroutine (`let mut next = |v| co.yield_(v).unwrap_or_default()`)"""
+    cache = prog.__dict__.setdefault('_yield_wrappers', None)
+    if cache is not None:
+        return cache
+    out = set()
+    for f, b in prog.bodies.items():
+        if f == CLOSURE:
+            continue
+        for bi, t in prog.calls(b):
+            fn = t['func'].get('fn')
+            if fn and (fn.get('resolved') or fn['path']).endswith('::yield_'):
+                out.add(f)
+                break
+    prog.__dict__['_yield_wrappers'] = out
+    return out
+
+
+def yield_site_of(fr, bi):
+    """the suspension point of the coroutine a `yield_` executed in frame fr at block bi belongs to: (coroutine frame, block)
+    - the call itself, or the call of the helper it is made in; None when it is not made on behalf of the coroutine"""
+    if fr.func == CLOSURE:
+        return fr, bi
+    c = getattr(fr, 'caller', None)
+    if c is not None and c[0] is not None and c[0].func == CLOSURE:
+        return c[0], c[1]
+    return None
+
+
 def coroutine_scope(prog):
     """the parser coroutine and the private helpers of the parser module it calls (transitively):
     what they do counts as done by the state machine"""
@@ -124,10 +154,15 @@ class Ctx:
         if body is None:
             return []
         ys = []
+        wr = yield_wrappers(prog)
         for bi, t in prog.calls(body):
             fn = t['func'].get('fn')
             if fn and (fn.get('resolved') or fn['path']).endswith('::yield_'):
                 ys.append(bi)
+            elif fn and wr:
+                kind, callee = prog.resolve_callee(fn, bind_listener=False)
+                if kind == 'local' and callee in wr:
+                    ys.append(bi)      # a call of a helper that suspends on behalf of the coroutine
         ys.sort(key=lambda b: (body.blocks[b]['term']['span']['line'], body.blocks[b]['term']['span']['col']))
         return ys
 
@@ -254,10 +289,11 @@ class Ctx:
             inv.screen_init(eng, st)
 
             def hook(kind, st_, fr, bi, *a):
-                if kind == 'yield' and fr.func == CLOSURE:
-                    lst = arrivals.setdefault(bi, [])
+                ys_ = yield_site_of(fr, bi) if kind == 'yield' else None
+                if ys_ is not None:
+                    lst = arrivals.setdefault(ys_[1], [])
                     if len(lst) < 12:
-                        lst.append((st_.fork(), fr))
+                        lst.append((st_.fork(), ys_[0]))
                 return None
             eng.hooks = [base_hook, hook]
             eng.entry_name = 'coroutine body'
